@@ -217,6 +217,17 @@ func (r *rpcStub) GetBlockHeight() (uint64, error) {
 				r.n.served(r.c.Name, h-1)
 				return uint64(h - 1), nil
 			}
+		case "behind":
+			// a back-end that is still catching up (after a restart, a re-sync, a swapped
+			// node): it answers with a tip Ms blocks in the past
+			back := uint32(f.Ms)
+			if back == 0 {
+				back = 100
+			}
+			if h := r.c.Height(); h > back {
+				r.n.served(r.c.Name, h-back)
+				return uint64(h - back), nil
+			}
 		}
 	}
 	r.n.served(r.c.Name, r.c.Height())
